@@ -166,6 +166,8 @@ def build_right(spec):
         except Exception as e:
             raise GenInvalid(f"nested right-hand side cannot be built: {type(e).__name__}") from e
         return p
+    if k == "hist":   # a processor built by a life of public calls (extension 5); every call must succeed
+        return hist_realize(spec["hist"])[0]
     raise ValueError(k)
 
 
@@ -1105,6 +1107,8 @@ def right_shape(spec):
         return gens.leaf_width(spec["leaf"]), []
     if spec["kind"] == "circ":
         return spec["m"], []
+    if spec["kind"] == "hist":   # read off the built object by the generator
+        return spec["shape"][0], list(spec["shape"][1])
     if spec["kind"] == "scn":   # heralds of the inner left processor + those appended by the inner compositions
         total = spec["scn"]["left"]["cs"]
         hs = [e["mode"] for e in spec["scn"]["left"]["ops"] if e["op"] == "herald"]
@@ -1600,6 +1604,40 @@ def gen_scenario(rng, max_cs, malformed=False):
     return {"left": left, "steps": steps}
 
 
+def gen_scenario_histright(rng, max_cs):
+    """extension 5: a left processor and 1-2 adds whose right-hand side is a processor built by a LIFE of public calls
+    (heralds declared at any time, ports added and removed — herald ports on the input side included —, components and
+    heralded processors added), kept only when it is a well-formed processor (m = circuit_size - #heralds: no herald
+    port taken off the output side); every mapping syntax, ~12% malformed.  Judged like any other scenario (wiring,
+    unitary, heralds, detectors, ports)."""
+    for _ in range(20):
+        left = gen_left(rng, max_cs)
+        if len(left_shape(left)) >= 1:
+            break
+    steps = []
+    for i in range(rng.randint(1, 2)):
+        shape = evolved_shape(left, steps)
+        right = None
+        for _ in range(12):
+            life = gen_history(rng, nest=0.25, inner=True)["hist"]
+            if any(o["op"] == "det" for o in life["ops"]):
+                continue
+            try:
+                obj = hist_realize(life)[0]
+                o = {"m": obj.m, "cs": obj.circuit_size, "heralds": [[int(k), int(v)] for k, v in obj.heralds.items()]}
+                _ = obj.in_port_names, obj.out_port_names
+            except Exception:  # noqa: GenInvalid or a port past the last mode
+                continue
+            if real_right_wf(o) and 1 <= o["m"] <= max(1, len(shape[1])) and obj.post_select_fn is None:
+                right = {"kind": "hist", "hist": life, "shape": [int(obj.m), [h[0] for h in o["heralds"]]]}
+                break
+        if right is None:
+            raise GenInvalid("no well-formed life found")
+        ms = gen_mapping(rng, left, right, malformed=rng.random() < 0.12, shape=shape)
+        steps.append({"right": right, "map": ms, "keep_port": rng.random() < 0.8})
+    return {"left": left, "steps": steps}
+
+
 def gen_scenario_reserved(rng, max_cs):
     """a long-lived processor: a left processor (heralds / detectors declared or not), 1-2 legal adds of which at
     least one imports heralded modes, then 1-3 adds — components, circuits, processors, through every mapping syntax —
@@ -1660,6 +1698,14 @@ class Runner:
         chk.count("left_cs", L["cs"])
         chk.count("right_kind", st["right"]["kind"] + ("+heralds" if R["heralds"] else ""))
         chk.branch("form-" + ms["form"])
+        if st["right"]["kind"] == "hist":
+            chk.branch("right-life")
+            if R["heralds"]:
+                chk.branch("right-life-heralds")
+                if "err" not in info and info.get("legal"):
+                    chk.branch("right-life-heralds-accepted")
+            if len(ports_of_side(R, "inp")) != len(ports_of_side(R, "outp")):
+                chk.branch("right-life-herald-input-port-removed")
         if ms["form"] == "dict" and any(isinstance(k, str) for k, _ in ms["items"]):
             chk.branch("port-names")
         if ms["form"] == "dict":
@@ -2007,6 +2053,64 @@ def hist_lean_op(op, R):
     return {"op": "add", "right": side, "map": op["map"], "keep_port": op.get("keep_port", True)}
 
 
+def ports_of_side(R, side):
+    return [x for x in R.get(side, []) if x[3]]
+
+
+def hist_right(op):
+    """-> (real object to add, its observed public state, the model's description of it) for one add of a life.
+    A right-hand side that is itself a life (kind 'hist') is described to the model BY THAT LIFE: the model runs it and
+    reads the processor through Exp.side (addHist), nothing observed on the real object is handed over."""
+    spec = op["right"]
+    if spec["kind"] == "hist":
+        obj, inner = hist_realize(spec["hist"])
+        try:
+            R = observe_right(obj)
+        except Exception as e:  # noqa: judged by the life's own case
+            raise GenInvalid(f"nested life cannot be observed: {type(e).__name__}") from e
+        return obj, R, {"op": "add", "right_hist": {"m": spec["hist"]["m"], "ops": inner}, "map": op["map"],
+                        "keep_port": op.get("keep_port", True)}
+    try:
+        obj = build_right(spec)
+        R = observe_right(obj)
+    except GenInvalid:
+        raise
+    except Exception as e:  # noqa
+        raise GenInvalid(f"right-hand side cannot be built: {type(e).__name__}") from e
+    if R.get("has_ps") and spec.get("ps_ast") is None:
+        raise GenInvalid("right post-selection without a known AST")
+    return obj, R, hist_lean_op(op, R)
+
+
+def hist_realize(h):
+    """runs a whole life on the real code; -> (processor, the same calls for the model).  Every call must succeed
+    (a failing call inside a nested life invalidates the outer case: failing calls are the business of the life's
+    own case in the history family)"""
+    import perceval as pcvl
+    try:
+        p = pcvl.Processor("SLOS", h["m"]) if h["m"] is not None else pcvl.Processor("SLOS")
+    except Exception as e:  # noqa
+        raise GenInvalid(f"nested life: construction raised {type(e).__name__}") from e
+    lean_ops = []
+    for op in h["ops"]:
+        if op["op"] == "add":
+            obj, _, lop = hist_right(op)
+        else:
+            obj, lop = None, hist_lean_op(op, None)
+        try:
+            hist_apply(p, dict(op, _obj=obj))
+        except Exception as e:  # noqa
+            raise GenInvalid(f"nested life: {op['op']} raised {type(e).__name__}") from e
+        lean_ops.append(lop)
+    return p, lean_ops
+
+
+def real_right_wf(o):
+    """RightWF judged on the public state: herald positions inside the circuit (a dictionary: distinct by
+    construction) and m + #heralds = circuit_size (m read as max(m, 0): the model's Side.m is a natural number)"""
+    return all(0 <= k < o["cs"] for k, _ in o["heralds"]) and max(o["m"], 0) + len(o["heralds"]) == o["cs"]
+
+
 def hist_model_state(st):
     out = {"m": st["m"], "cs": st["cs"], "conn": st["conn"], "heralds": st["heralds"],
            "dets": hist_det_canon(st),
@@ -2034,15 +2138,17 @@ def run_history(scn, ask, on_event=None):
     # the objects to add are built (and observed) first: the model needs their public state
     for op in ops:
         if op["op"] == "add":
-            try:
-                obj = build_right(op["right"])
-                R = observe_right(obj)
-            except Exception as e:  # noqa
-                raise GenInvalid(f"right-hand side cannot be built: {type(e).__name__}") from e
-            if R.get("has_ps") and op["right"].get("ps_ast") is None:
-                raise GenInvalid("right post-selection without a known AST")
+            obj, R, lop = hist_right(op)
+            if op["right"]["kind"] == "hist":
+                # does the nested life keep its herald ports on the output side?  (the model's own predicate)
+                inner = ask({"op": "hist", "fix_m0": True, "m": op["right"]["hist"]["m"], "ops": lop["right_hist"]["ops"]})
+                if "trace" not in inner or "err" in inner["trace"][-1]:
+                    return ("broken", "hist-nested-model-fails",
+                            f"a nested life every call of which the real code accepted is refused by the model: "
+                            f"{str(inner)[:200]} ; life: {describe_hist(op['right']['hist'], 99)}")
+                R = dict(R, keeps=bool(inner.get("keeps_herald_out")), model_side=inner["trace"][-1])
             objs.append((obj, R))
-            lean_ops.append(hist_lean_op(op, R))
+            lean_ops.append(lop)
         else:
             objs.append((None, None))
             lean_ops.append(hist_lean_op(op, None))
@@ -2062,6 +2168,11 @@ def run_history(scn, ask, on_event=None):
             if real[key] != mod[key]:
                 return ("broken", "hist-state-" + key,
                         f"{when}: {key} of the real processor is {real[key]}, the model of the bookkeeping says {mod[key]}")
+        if "right_wf" in model and real_right_wf(real) != model["right_wf"]:
+            return ("broken", "hist-state-right_wf",
+                    f"{when}: m={real['m']}, circuit_size={real['cs']}, heralds={real['heralds']}: well-formed as an added "
+                    f"processor = {real_right_wf(real)}, the model's RightWF says {model['right_wf']}")
+        ev("rightwf-" + str(real_right_wf(real)).lower())
         return None
 
     bad = diff(cur, trace[0], "after construction")
@@ -2071,6 +2182,25 @@ def run_history(scn, ask, on_event=None):
         when = f"after call {i} ({op['op']}) of {describe_hist(h, i)}"
         obj, R = objs[i]
         before = cur
+        nested = op["op"] == "add" and op["right"]["kind"] == "hist"
+        # a nested life that took a herald port off its output side is not a well-formed processor (m != circuit_size
+        # - #heralds): the property does not say what adding it means; model and code are compared, nothing is judged
+        judged = not nested or R["keeps"]
+        if nested:
+            try:
+                bad = diff(observe_hist(obj), R["model_side"], f"nested life {describe_hist(op['right']['hist'], 99)}")
+            except Exception as e:  # noqa
+                raise GenInvalid(f"nested life cannot be observed: {type(e).__name__}") from e
+            if bad:
+                return bad
+            ev("add-hist")
+            ev("add-hist-keeps" if R["keeps"] else "add-hist-herald-out-removed")
+            if R["keeps"] and not real_right_wf(R):
+                return ("broken", "hist-rightwf-theorem",
+                        f"{when}: the nested life keeps its herald ports yet m={R['m']}, circuit_size={R['cs']}, "
+                        f"heralds={R['heralds']} (history_right_wf says this cannot happen in the model)")
+            if R["heralds"]:
+                ev("add-hist-heralds")
         reserved = {x[0] for x in before["heralds"]} | {k for k, d in enumerate(before["dets"]) if d is not None}
         err = None
         try:
@@ -2082,6 +2212,13 @@ def run_history(scn, ask, on_event=None):
             ev("add-" + ("comp" if R["comp"] else "proc") + ("-m0" if before["m"] == 0 and before["cs"] > 0 else "")
                + ("-unset" if before["cs"] == 0 else ""))
         model = trace[i + 1] if i + 1 < len(trace) else None
+        if not judged:
+            # the added processor lost a herald port on its output side: m != circuit_size - #heralds, ports may cover
+            # modes that are neither mapped nor listed as heralds (the port loop of _compose_experiment then dies with
+            # ValueError after having changed the processor).  Outside the property and outside the model: the life of
+            # the added processor was compared above (state and RightWF = false); the add itself is only counted.
+            ev("add-hist-malformed-" + ("accepted" if err is None else err))
+            return None
         if op["op"] == "det" and before["m"] == 0 and before["cs"] > 0:
             # a detector on a mode of a processor all of whose modes are heralds: accepted or not, the call must not
             # change the number of modes, the heralds or the availability of any mode
@@ -2139,7 +2276,7 @@ def run_history(scn, ask, on_event=None):
                 return ("violation", "hist-circuit-size",
                         f"{when}: circuit_size went from {before['cs']} to {cur['cs']} although the added object brings "
                         f"{len(R['heralds'])} heralded modes")
-        elif cur["cs"] != before["cs"] and before["cs"] > 0:
+        elif op["op"] != "add" and cur["cs"] != before["cs"] and before["cs"] > 0:
             return ("violation", "hist-circuit-size", f"{when}: circuit_size changed from {before['cs']} to {cur['cs']}")
         for hm, _ in cur["heralds"]:
             if hm < len(cur["conn"]) and cur["conn"][hm]:
@@ -2153,6 +2290,8 @@ def run_history(scn, ask, on_event=None):
             return bad
         if cur["m"] == 0 and cur["cs"] > 0:
             ev("hist-all-heralded")
+        if nested:
+            ev("add-hist-accepted")
     ev("hist-completed")
     return None
 
@@ -2165,16 +2304,20 @@ def describe_hist(h, upto):
     return f"Processor('SLOS'{'' if h['m'] is None else ', ' + str(h['m'])}) ; " + " ; ".join(d(o) for o in h["ops"][:upto + 1])
 
 
-def gen_history(rng):
+def gen_history(rng, nest=0.0, inner=False, lead=False):
     """a processor life: mostly legal calls (a shadow of the expected state steers the choice), ~15% arbitrary ones;
-    ~30% of the lives declare EVERY mode a herald before going on"""
-    m0 = None if rng.random() < 0.1 else rng.randint(1, 4)
+    ~30% of the lives declare EVERY mode a herald before going on.  `nest` = probability that an add brings a processor
+    that is itself a life (extension 5); `inner` = such a nested life: legal calls only, 2-3 modes, at least one herald
+    most of the time, and remove_port aimed at herald ports (any location) a third of the time"""
+    m0 = None if (rng.random() < 0.1 and not inner) else rng.randint(1, 4)
+    if inner:
+        m0 = rng.randint(2, 3)
     cs = m0 or 0
     her, det, pin, pout = set(), set(), {}, {}
-    names = NAMES[:]
+    names = [("n" if inner else "") + x for x in NAMES]
     rng.shuffle(names)
     ops = []
-    all_her = rng.random() < 0.3 and m0 is not None
+    all_her = rng.random() < 0.3 and m0 is not None and not inner and not lead
 
     def free_modes():
         return [k for k in range(cs) if k not in her and k not in det]
@@ -2183,7 +2326,18 @@ def gen_history(rng):
         nonlocal cs
         fm = free_modes()
         kind = rng.choice(["leaf", "leaf", "proc"])
-        if kind == "leaf":
+        right = None
+        if rng.random() < nest:
+            life = gen_history(rng, nest=nest / 3, inner=True)["hist"]
+            try:
+                obj = hist_realize(life)[0]
+                if 1 <= obj.m <= max(1, len(fm)) + 1:
+                    right = {"kind": "hist", "hist": life, "shape": [int(obj.m), [int(k) for k in obj.heralds]]}
+            except GenInvalid:
+                right = None
+        if right is not None:
+            pass
+        elif kind == "leaf":
             right = {"kind": "leaf", "leaf": gens.gen_leaf(rng, max(1, min(2, len(fm) or 2)), ("BS", "PS", "PERM"))}
         else:
             right = gen_right(rng, max(1, min(2, len(fm) or 1)), want="proc")
@@ -2210,9 +2364,21 @@ def gen_history(rng):
             ops.append({"op": "herald", "mode": k, "exp": rng.randint(0, 1),
                         "name": None if rng.random() < 0.6 else "h" + str(k)})
             her.add(k)
-    for _ in range(rng.randint(1, 5)):
+    if inner and rng.random() < 0.8:
+        k = rng.randrange(cs)
+        ops.append({"op": "herald", "mode": k, "exp": rng.randint(0, 1), "name": None if rng.random() < 0.6 else "nh"})
+        her.add(k)
+        pin[k] = pout[k] = "H"
+        if rng.random() < 0.3:      # the herald port taken off again, on either side or both
+            loc = rng.choice(["INPUT", "OUTPUT", "IN_OUT"])
+            ops.append({"op": "rmport", "mode": k, "loc": loc})
+            for tbl in ([pin] if loc == "INPUT" else [pout] if loc == "OUTPUT" else [pin, pout]):
+                del tbl[k]
+    if lead and cs > 0:
+        add_op()
+    for _ in range(rng.randint(1, 4 if (inner or lead) else 5)):
         r = rng.random()
-        wild = rng.random() < 0.15
+        wild = rng.random() < (0.05 if lead else 0.15) and not inner
         if cs == 0 and not wild:
             if rng.random() < 0.5:
                 k = rng.randint(0, 2)
@@ -2238,6 +2404,8 @@ def gen_history(rng):
             loc = rng.choice(["INPUT", "OUTPUT", "IN_OUT"])
             cands = [k for k in range(max(0, cs - w + 1))
                      if all((x not in pin or loc == "OUTPUT") and (x not in pout or loc == "INPUT") for x in range(k, k + w))]
+            if inner and not cands:
+                continue      # a nested life keeps its ports inside its circuit (see the manifest: port past the last mode)
             k = rng.randint(0, cs) if (wild or not cands) else rng.choice(cands)
             nm = names.pop()
             ops.append({"op": "port", "mode": k, "enc": enc, "name": nm, "loc": loc})
@@ -2251,8 +2419,9 @@ def gen_history(rng):
             loc = rng.choice(["INPUT", "OUTPUT", "IN_OUT"])
             pool = both if loc == "IN_OUT" else [k for k in (pin if loc == "INPUT" else pout)
                                                  if (pin if loc == "INPUT" else pout)[k] != "H"]
-            if rng.random() < 0.12:
-                pool = [k for k in her if k in pout]      # removing a herald port: allowed by the code
+            if rng.random() < (0.4 if inner else 0.12):
+                tbls = {"INPUT": [pin], "OUTPUT": [pout], "IN_OUT": [pin, pout]}[loc]
+                pool = [k for k in her if all(k in t for t in tbls)]      # removing a herald port: allowed by the code
             k = rng.randint(0, cs) if (wild or not pool) else rng.choice(sorted(pool))
             ops.append({"op": "rmport", "mode": k, "loc": loc})
             for tbl in ([pin] if loc == "INPUT" else [pout] if loc == "OUTPUT" else [pin, pout]):
@@ -2274,7 +2443,9 @@ def gen_history(rng):
 def hist_sig(scn):
     h = scn["hist"]
     return json.dumps([h["m"]] + [[o["op"], o.get("mode"), o.get("loc"),
-                                   json.dumps(o.get("map"), sort_keys=True) if o["op"] == "add" else None]
+                                   (json.dumps(o.get("map"), sort_keys=True) +
+                                    (json.dumps(o["right"]["hist"], sort_keys=True) if o["right"]["kind"] == "hist" else ""))
+                                   if o["op"] == "add" else None]
                                   for o in h["ops"]])
 
 
@@ -2397,7 +2568,10 @@ def run(chk: core.Check):
                              "herald-input-port", "ps-merged", "ps-runtime-refused"] + \
                             ["op-herald", "op-port", "op-rmport", "op-det", "op-add", "add-comp", "add-proc",
                              "add-comp-m0", "add-comp-unset", "hist-all-heralded", "hist-completed",
-                             "hist-error-UnavailableModeException", "hist-error-IndexError"]
+                             "hist-error-UnavailableModeException", "hist-error-IndexError"] + \
+                            ["add-hist", "add-hist-keeps", "add-hist-herald-out-removed", "add-hist-accepted",
+                             "add-hist-heralds", "rightwf-true", "rightwf-false",
+                             "right-life", "right-life-heralds", "right-life-heralds-accepted"]
     chk.lean = core.LeanDriver("C10")
     runner = Runner(chk)
     rng = chk.rng
@@ -2465,6 +2639,29 @@ def run(chk: core.Check):
         try:
             handle(chk, runner, gen_history(rng))
             chk.count("generator", "history-family")
+        except core.LeanError:
+            raise
+        except GenInvalid:
+            chk.count("generator", "invalid-construction")
+
+
+    # extension 5: lives whose adds bring processors that are themselves lives (heralds declared, imported, their ports
+    # removed on either side): the model is told the nested LIFE, not the observed object (addHist / Exp.side)
+    n_w = chk.pick(70, 800)
+    for i in range(n_w):
+        try:
+            scn = prepare(gen_scenario_histright(rng, max_cs), rng)
+            handle(chk, runner, scn)
+            chk.count("generator", "life-as-right-hand-side-family")
+        except core.LeanError:
+            raise
+        except GenInvalid:
+            chk.count("generator", "invalid-construction")
+    n_n = chk.pick(170, 1500)
+    for i in range(n_n):
+        try:
+            handle_history(chk, runner, gen_history(rng, nest=0.75, lead=True))
+            chk.count("generator", "nested-life-family")
         except core.LeanError:
             raise
         except GenInvalid:
